@@ -136,41 +136,50 @@ class Part:
         self.watchdog = watchdog  # seconds per case (default CASE_WATCHDOG_S); for cases that loop internally
 
 
-def optimized_part(check_id: str, parts: list, name: str = "python-O") -> "Part":
+def nested_part(check_id: str, parts: list, env: dict, name: str, why: str) -> "Part":
     """A part that runs the given parts of the same check once more (quick tier, same VERIF_SEED) in a child
-    interpreter with PYTHONOPTIMIZE=1, i.e. with `assert` statements stripped from the code under test: an assert
-    that carries a side effect (or a check a caller relies on) behaves differently there, and nutree is a library -
-    it does not choose its interpreter flags."""
+    interpreter with a different process environment (interpreter flags, locale, time zone, stream encodings):
+    nutree is a library - it does not choose the environment of the process that uses it."""
     import subprocess
     import tempfile
 
+    marker = "VERIF_NESTED"
+
     def enum(tier):
-        yield {"parts": list(parts), "interpreter": "PYTHONOPTIMIZE=1"}
+        yield {"parts": list(parts), "environment": dict(env)}
 
     def run(case, rec):
-        if sys.flags.optimize:
-            rec.cls("already-optimized")
+        if os.environ.get(marker):
+            rec.cls("already-nested")
             return
         rec.nt(True)
-        with tempfile.TemporaryDirectory(prefix="verif_opt_") as tmp:
-            env = dict(os.environ, PYTHONOPTIMIZE="1", VERIF_EVIDENCE_DIR=os.path.join(tmp, "ev"), VERIF_OUT_DIR=os.path.join(tmp, "out"),
-                       VERIF_QUICK_PROCS="2", VERIF_TIER="quick")
+        with tempfile.TemporaryDirectory(prefix="verif_nested_") as tmp:
+            e = dict(os.environ, VERIF_EVIDENCE_DIR=os.path.join(tmp, "ev"), VERIF_OUT_DIR=os.path.join(tmp, "out"), VERIF_QUICK_PROCS="2", VERIF_TIER="quick")
+            e[marker] = "1"
+            e.update(case["environment"])
             p = subprocess.run([sys.executable, os.path.join(VERIF, "check"), check_id, "--tier", "quick", "--parts", ",".join(case["parts"]), "--no-shrink"],
-                               env=env, capture_output=True, text=True, timeout=1500)
-        lines = p.stdout.splitlines()
+                               env=e, capture_output=True, timeout=1500)
+        out = p.stdout.decode("utf8", "replace")
+        lines = out.splitlines()
         fails = [ln for ln in lines if ln.startswith("FAIL property=")]
         for ln in fails[:5]:
             bucket = ln.split("bucket=", 1)[1].split(" ", 1)[0] if "bucket=" in ln else "?"
-            rec.fail("python-O:" + bucket, ln[:600])
+            rec.fail(f"{name}:" + bucket, ln[:600])
         summary = [ln for ln in lines if " tier=quick " in ln and "cases=" in ln]
         if p.returncode not in (0, 1) or not summary or (p.returncode == 1 and not fails):
-            raise HarnessError(f"nested run under PYTHONOPTIMIZE=1 failed (exit {p.returncode}): {(p.stdout + p.stderr)[-800:]}")
+            raise HarnessError(f"nested run with {case['environment']} failed (exit {p.returncode}): {(out + p.stderr.decode('utf8', 'replace'))[-800:]}")
         try:
             rec.evals += int(summary[-1].split("cases=", 1)[1].split(" ", 1)[0])
         except ValueError:
             pass
 
-    return Part(name, run, enum=enum, watchdog=1600, enum_note=lambda tier: "one nested run of the listed parts (quick tier) under PYTHONOPTIMIZE=1")
+    return Part(name, run, enum=enum, watchdog=1600, enum_note=lambda tier: f"one nested run of the listed parts (quick tier) with {env}: {why}")
+
+
+def optimized_part(check_id: str, parts: list, name: str = "python-O") -> "Part":
+    """the listed parts once more with `assert` statements stripped from the code under test (python -O): an assert
+    that carries a side effect, or that is the only thing refusing a bad argument, behaves differently there"""
+    return nested_part(check_id, parts, {"PYTHONOPTIMIZE": "1"}, name, "asserts are stripped")
 
 
 # ----------------------------------------------------------------------------
